@@ -387,18 +387,24 @@ func callsParent(tier string) {
 	fns := enumerateGoFunctions(r)
 	cleanup()
 	p := buildCallPlan(tier, fns)
-	total := len(p.fns) * p.perFn
+	bcs := boundaryCases(tier)
+	base0 := len(p.fns) * p.perFn
+	total := base0 + len(bcs)
 	if base, err := os.MkdirTemp("", "c04-base-"); err == nil {
 		os.Setenv("TMPDIR", base)
 		defer os.RemoveAll(base)
 	}
-	fmt.Fprintf(os.Stderr, "c04 calls: %d Go functions x %d tuples = %d calls\n", len(p.fns), p.perFn, total)
+	fmt.Fprintf(os.Stderr, "c04 calls: %d Go functions x %d tuples + %d boundary cases = %d calls\n", len(p.fns), p.perFn, len(bcs), total)
 	for _, f := range p.fns {
 		fmt.Printf("fn %s\n", f)
 	}
 	superviseWorkers("callworker", tier, total, nil,
 		func(l string) int { return 0 },
 		func(idx int, cls, detail string) string {
+			if idx >= base0 {
+				c := bcs[idx-base0]
+				return fmt.Sprintf("call %s lua:%s %s %s -", c.path, c.args, cls, hx(detail))
+			}
 			fi, ti := idx/p.perFn, idx%p.perFn
 			return fmt.Sprintf("call %s %s %s %s -", p.fns[fi], tupleName(p.fns[fi], p.tuple(fi, ti)), cls, hx(detail))
 		}, 50*time.Millisecond)
@@ -428,7 +434,9 @@ func callWorker(tier string, from, to int) {
 	}()
 	var e *callEnv
 	var p *callPlan
+	var bcs []boundaryCase
 	curFn := -1
+	curPath := ""
 	for i := from; i < to; i++ {
 		if e == nil {
 			e = newCallEnv()
@@ -439,12 +447,31 @@ func callWorker(tier string, from, to int) {
 				}
 				sort.Slice(fns, func(a, b int) bool { return fns[a].path < fns[b].path })
 				p = buildCallPlan(tier, fns)
+				bcs = boundaryCases(tier)
 			}
 		}
-		fi, ti := i/p.perFn, i%p.perFn
-		if fi >= len(p.fns) {
-			break
+		if base0 := len(p.fns) * p.perFn; i >= base0 {
+			// boundary-aware cases: (function, Lua argument list)
+			if i-base0 >= len(bcs) {
+				break
+			}
+			c := bcs[i-base0]
+			if c.path != curPath && curPath != "" {
+				guard(func() (string, string) { e.cleanup(); return "", "" })
+				e = newCallEnv()
+			}
+			curPath = c.path
+			out.arm(caseTimeout(), fmt.Sprintf("call %s lua:%s %s - -", c.path, c.args, clsTimeo))
+			cls, detail, flags := e.runBoundary(c)
+			out.emit(fmt.Sprintf("call %s lua:%s %s %s %s", c.path, c.args, cls, hx(detail), dash(flags)))
+			if cls == clsPanic || cls == clsKilled {
+				guard(func() (string, string) { e.cleanup(); return "", "" })
+				e = nil
+				curPath = ""
+			}
+			continue
 		}
+		fi, ti := i/p.perFn, i%p.perFn
 		if fi != curFn && curFn >= 0 {
 			// fresh runtime per function
 			guard(func() (string, string) { e.cleanup(); return "", "" })
@@ -500,6 +527,16 @@ func (e *callEnv) runTuple(path string, tup []int) (cls, detail, flags string) {
 func replayCall(path string, argNames []string) {
 	out := callWorkerSetup()
 	e := newCallEnv()
+	if len(argNames) == 1 && strings.HasPrefix(argNames[0], "lua:") {
+		c := boundaryCase{path, strings.TrimPrefix(argNames[0], "lua:")}
+		out.arm(120*time.Second, fmt.Sprintf("call %s lua:%s %s - -", c.path, c.args, clsTimeo))
+		cls, detail, flags := e.runBoundary(c)
+		out.emit(fmt.Sprintf("call %s lua:%s %s %s %s\n# outcome: %s %s", c.path, c.args, cls, hx(detail), dash(flags), cls, detail))
+		if tmpDirToRemove != "" && strings.Contains(tmpDirToRemove, "c04-calls-") {
+			os.RemoveAll(tmpDirToRemove)
+		}
+		return
+	}
 	var tup []int
 	for _, a := range argNames {
 		for _, a1 := range strings.Split(a, ",") {
